@@ -13,10 +13,11 @@ from vt import core
 GRAMMAR = r'''
 Model: imports*=Import items*=Item;
 Import: 'import' importURI=STRING ';';
-Item: Def | Use | Uses | Box;
+Item: Def | Use | Uses | Rr | Box;
 Def: 'def' name=ID (ver=Ver | val=Num)? ';';
 Use: 'use' ref=[Def] ';';
 Uses: 'uses' refs+=[Def][','] ';';
+Rr: 'rr' ref=[Def|ID|^items] ';';
 Box: 'box' name=ID '{' items*=Item '}';
 Ver: Num '.' Num;
 Num: /\d+/;
@@ -24,6 +25,8 @@ Comment: /#[^\n]*/;
 '''
 
 FILE_NAMES = ["main.loc", "alpha.loc", "beta.loc", "gamma.loc"]
+BUILTIN_NAME = "builtin.loc"
+GIVEN_NAME = "given.loc"
 LETTERS = ["a", "b", "c", "k", "q", "x", "y", "ñ", "δ", "w_"]
 GARBAGE = ["%", "@@", "%%%", "$", "&|"]
 WS_PLAIN = [" ", " ", " ", "  ", "\n", "\n", "\n\n", "\t", " \n   ", "\n\t", "\r\n", "\r\n  ", "\r", " \r"]
@@ -56,13 +59,22 @@ def _name(r, used, prefix=""):
             return n
 
 
-def gen_world(r, nfiles=None, as_string=False):
-    """Valid world: files[0] is the main model.  Returns dict(files=[File], string=bool, defs={file: [names]})."""
+def gen_world(r, nfiles=None, as_string=False, builtin=None, refless=False):
+    """Valid world: files[0] is the main model.  Returns dict(files=[File], string=bool, defs={file: [names]}).
+    Options drawn here: a builtin model (metamodel builtin_models: an extra, separately loaded file whose
+    definitions every model can reference; it is the LAST entry of files and never imported), an explicit
+    file_name for string loads, user classes for Def/Box."""
     if as_string:
         nfiles = 1
     if nfiles is None:
         nfiles = r.weighted([(1, 3), (2, 4), (3, 3), (4, 2)])
+    if builtin is None:
+        builtin = r.chance(0.25)
     files = [File(i) for i in range(nfiles)]
+    if builtin:
+        b = File(0)
+        b.ix, b.name = nfiles, BUILTIN_NAME
+        files.append(b)
     for i in range(1, nfiles):
         files[r.below(i)].imports.append(i)
     for i in range(nfiles):
@@ -80,7 +92,7 @@ def gen_world(r, nfiles=None, as_string=False):
         def mk_items(depth, n):
             out = []
             for _ in range(n):
-                k = r.weighted([("def", 5), ("box", 2 if depth < 2 else 0), ("use", 3), ("uses", 1)])
+                k = r.weighted([("def", 5), ("box", 2 if depth < 2 else 0)] + ([] if refless else [("use", 3), ("uses", 1), ("rr", 1)]))
                 if k == "def":
                     nm = _name(r, used)
                     names.append(nm)
@@ -108,17 +120,41 @@ def gen_world(r, nfiles=None, as_string=False):
         visible = list(defs[f.ix])
         for j in f.imports:
             visible += defs[j]
+        if builtin and f.ix != nfiles:
+            visible += defs[nfiles]
 
-        def fill(items):
+        def fill(items, ancestors):
+            # rr: RREL `^items` finds definitions that are direct members of an enclosing items list
+            reach = [y["name"] for lst in ancestors + [items] for y in lst if y["k"] == "def"]
             for x in items:
+                if x["k"] == "rr":
+                    if reach:
+                        x["names"] = [r.choice(reach)]
+                    else:
+                        x["k"] = "use"
                 if x["k"] == "use":
                     x["names"] = [r.choice(visible)]
                 elif x["k"] == "uses":
                     x["names"] = [r.choice(visible) for _ in range(r.range(1, 3))]
                 elif x["k"] == "box":
-                    fill(x["items"])
-        fill(f.items)
-    return {"files": files, "string": as_string, "defs": defs, "used": used}
+                    fill(x["items"], ancestors + [items])
+        fill(f.items, [])
+    w = {"files": files, "string": as_string, "defs": defs, "used": used, "builtin": builtin,
+         "str_file_name": GIVEN_NAME if as_string and r.chance(0.4) else None,
+         "user_classes": r.chance(0.25)}
+    return w
+
+
+def loaded_files(w):
+    """the files of the load proper (without the builtin model)"""
+    return w["files"][:-1] if w.get("builtin") else w["files"]
+
+
+def file_name_of(w, f):
+    """the file name textX knows for file f of world w (None: loaded from a string without file_name)"""
+    if w["string"] and f.name != BUILTIN_NAME:
+        return w.get("str_file_name")
+    return f.name
 
 
 def all_item_lists(f):
@@ -170,7 +206,7 @@ def tokens_of(f, files):
                 b = emit(";")
                 f.semis.append(b)
                 f.objs.append({"cls": "Def", "first": a, "last": b, "abstract": True, "name": x["name"]})
-            elif x["k"] in ("use", "uses"):
+            elif x["k"] in ("use", "uses", "rr"):
                 a = emit(x["k"])
                 for i, n in enumerate(x["names"]):
                     if i:
@@ -178,7 +214,7 @@ def tokens_of(f, files):
                     f.refs.append({"name": n, "tok": emit(n)})
                 b = emit(";")
                 f.semis.append(b)
-                f.objs.append({"cls": "Use" if x["k"] == "use" else "Uses", "first": a, "last": b, "abstract": True})
+                f.objs.append({"cls": {"use": "Use", "uses": "Uses", "rr": "Rr"}[x["k"]], "first": a, "last": b, "abstract": True})
             else:
                 a = emit("box")
                 emit(x["name"])
@@ -280,17 +316,17 @@ def linecol(text, pos):
 
 
 # ------------------------------------------------------------------ Coq side
-IMPORTS = """From TxV Require Import Core.Base Core.Show Model.ErrLoc Gen.SrcLoc.
+IMPORTS = """From TxV Require Import Core.Base Core.Show Model.PegSyntax Model.Peg Model.Build Model.ErrLoc Gen.SrcLoc Model.ErrLocLoad.
 Open Scope string_scope.
 Definition show_rec (r : errrec) : string :=
   show_opt show_str (r_file r) ++ "|" ++ show_opt show_nat (r_line r) ++ "|" ++ show_opt show_nat (r_col r) ++ "|" ++ show_opt show_nat (r_nchar r).
 Definition show_lc (p : option nat * option nat) : string := show_opt show_nat (fst p) ++ ":" ++ show_opt show_nat (snd p).
 Definition show_unres (x : option errrec * list (option nat * option nat)) : string :=
   show_opt show_rec (fst x) ++ "#" ++ sjoin "," (map show_lc (snd x)).
-Definition show_out (o : outcome) : string :=
+Definition show_out (o : ErrLoc.outcome) : string :=
   match o with Loaded => "Loaded" | Propagates => "Propagates" | Fails e => "Fails:" ++ show_rec e end.
 Definition show_lcs (t : list N) (n : nat) : string :=
-  sjoin "," (map (fun p => let lc := pos_to_linecol t p in show_nat (fst lc) ++ ":" ++ show_nat (snd lc)) (seq 0 n)).
+  sjoin "," (map (fun p => let lc := ErrLoc.pos_to_linecol t p in show_nat (fst lc) ++ ":" ++ show_nat (snd lc)) (seq 0 n)).
 (* texts are passed as ASCII string literals (fast to parse): ~<decimal>; escapes every other code point *)
 Fixpoint dec_go (s : string) (acc : option N) : list N :=
   match s with
@@ -319,7 +355,8 @@ def coq_txt(t):
 def coq_fs(world):
     items = []
     for f in world["files"]:
-        nm = "None" if world["string"] else "(Some %s)" % core.coq_str(f.name)
+        n = file_name_of(world, f)
+        nm = "None" if n is None else "(Some %s)" % core.coq_str(n)
         items.append("mk %s %s" % (nm, coq_txt(f.seen)))
     return core.coq_list(items)
 
@@ -347,13 +384,24 @@ def impl_canon(o):
 
 
 def world_payload(world):
-    return {"grammar": GRAMMAR, "string": world["string"],
-            "files": [{"name": f.name, "raw": f.raw} for f in world["files"]]}
+    p = {"grammar": GRAMMAR, "string": world["string"],
+         "files": [{"name": f.name, "raw": f.raw} for f in loaded_files(world)],
+         "str_file_name": world.get("str_file_name"), "user_classes": bool(world.get("user_classes"))}
+    if world.get("builtin"):
+        b = world["files"][-1]
+        p["builtin"] = {"name": b.name, "raw": b.raw}
+    return p
 
 
 def world_stats(chk, world):
-    chk.stat("files=%d" % len(world["files"]))
+    chk.stat("files=%d" % len(loaded_files(world)))
     chk.stat("loaded from " + ("string" if world["string"] else "file"))
+    if world.get("builtin"):
+        chk.stat("with a builtin model")
+    if world.get("str_file_name"):
+        chk.stat("string with explicit file_name")
+    if world.get("user_classes"):
+        chk.stat("user classes for Def/Box")
     t = "".join(f.raw for f in world["files"])
     if "\r" in t:
         chk.stat("layout has CR")
@@ -370,7 +418,7 @@ def world_from_files(files, as_string):
         f.ix, f.name, f.raw = i, name, raw
         f.seen = raw if as_string else universal_newlines(raw)
         out.append(f)
-    return {"files": out, "string": as_string}
+    return {"files": out, "string": as_string, "builtin": False, "str_file_name": None, "user_classes": False, "corpus": True}
 
 
 def corpus_files(pid):
